@@ -314,7 +314,33 @@ def rule_hibernate_table(ck):
     ck.ob("table.hibernate", "new_inherited/copies-number-place-file", ok, f"new_inner({detail})", ni.loc())
 
 
+def rule_breakpoint_owner(ck):
+    """whose memory access a breakpoint object uses"""
+    prog = ck.prog
+    ck.rule("table.breakpoint_owner", "breakpoints that outlive a command (user-defined, entry point, linker map, transparent) are created with the process id (Child::pid of the debugger's process), never with the id of the thread that happens to be in focus: Breakpoint::enable / disable poke the debuggee through that id, and a thread id stops working when the thread exits — the patch then stays in memory for good")
+    durable = ("new", "new_entry_point", "new_linker_map", "new_transparent")
+    sites = []
+    for p_, f in prog.fns.items():
+        if f.file == "src/debugger/breakpoint.rs" and re.search(r"breakpoint::(Breakpoint|UninitBreakpoint)::", owner_fn(p_)):
+            continue
+        for c in f.calls():
+            m = re.search(r"breakpoint::Breakpoint::(new\w*)$", c.name)
+            if m and m.group(1) in durable:
+                sites.append((f, c, m.group(1)))
+    ck.floor("table.breakpoint_owner", "durable breakpoint constructions", len(sites), 4)
+    nth = {}
+    for f, c, kind in sites:
+        ck.saw(f)
+        owner = short(owner_fn(f.path))
+        n = nth.get((owner, kind), 0)
+        nth[(owner, kind)] = n + 1
+        pids = [expr_str(expr_of(f, a, depth=8), 6) for a in c.args if "Pid" in (f.local_ty(a["p"][0]) if a.get("p") else "")]
+        ok = len(pids) == 1 and re.fullmatch(r"pid\(&arg1\*?(\.process|\.0\*)?\)|pid\(&arg1\)", pids[0]) is not None
+        ck.ob("table.breakpoint_owner", f"{owner}/{kind}#{n}/created-with-the-process-id", ok, f"pid argument: {pids}", f.loc(c.bb), what="a durable breakpoint is bound to a thread id: once that thread has exited the breakpoint cannot be un-patched (remove, step over, detach) and its int3 stays in the code")
+
+
 def run(ck):
+    rule_breakpoint_owner(ck)
     # releasing a companion reaches the companion: watchpoints hold its number (shared with C14)
     from rules import C14
     C14.rule_companion_identity(ck)
